@@ -497,7 +497,8 @@ def check_tmle_case(chk, drv, cfg, dseed, hist='single', cfg0=None):
         return
     try:
         evaluate_tmle(chk, drv, t, snap, eff, case)
-        if hist != 'single' or any(cfg.get(k) for k in ('mid', 'pre', 'post')):
+        if hist != 'single' or any(cfg.get(k) for k in ('mid', 'pre', 'post')) or \
+                any(eff.get(k) not in (None, 'list') for k in ('gbk', 'qbk', 'mbk')):
             compare_fresh(chk, t, snap, eff, case)
     except Exception as e:                              # noqa: BLE001
         import traceback
@@ -513,7 +514,10 @@ def estimates_of(t, cont):
 
 def compare_fresh(chk, t, snap, eff, case):
     """history independence of the targeting step: same numbers as a fresh object with the last specification"""
-    fresh_cfg = dict(eff, order='gmq')
+    # the reference invocation: canonical order of the specifications, no reporting calls, and every asymmetric
+    # bound written the way the docstrings show it (a two-entry list) -- a tuple, or a third entry that is documented
+    # to be ignored, denotes the same bound
+    fresh_cfg = dict(eff, order='gmq', gbk='list', qbk='list', mbk='list')
     try:
         f = fit_tmle(snap.copy(deep=True), fresh_cfg)
     except Exception as e:                              # noqa: BLE001
@@ -534,7 +538,7 @@ def compare_fresh(chk, t, snap, eff, case):
         if not allclose(np.asarray(getattr(t, k), dtype=float).tolist(), getattr(f, k), rtol=1e-7, atol=1e-9):
             bad.append(k)
     chk.d(not bad, 'after the call history the estimates and targeted predictions equal those of a fresh object with '
-          'the last specification', dict(case, differs=bad, history=a, fresh=b))
+          'the last specification (bounds written as two-entry lists)', dict(case, differs=bad, history=a, fresh=b))
 
 
 def analysed_rows(snap, outcome='Y', drop_outcome=False):
